@@ -147,7 +147,12 @@ def selections(draw, names, unknown=False, duplicates=False, allow_empty=False, 
     if duplicates and sel and draw(st.integers(0, 5)) == 0:
         sel.insert(draw(st.integers(0, len(sel))), draw(st.sampled_from(sel)))
     if unknown:
-        pool = [n for n in sa.NAME_POOL + ["", "a ", "nosuch"] if n not in names]
+        # unknown names: unrelated ones and near misses of existing names (an existing name extended,
+        # truncated or in another case -- a lookup that truncates or normalises would find a field)
+        near = []
+        for n in names:
+            near += [n + "_err", n + "2", n + n, n[:-1], n.upper(), n.lower(), " " + n, n + " "]
+        pool = [n for n in sa.NAME_POOL + ["", "a ", "nosuch"] + near if n not in names]
         for _ in range(draw(st.integers(1, 2))):
             sel.insert(draw(st.integers(0, len(sel))), draw(st.sampled_from(pool)))
     return sel
